@@ -81,7 +81,7 @@ def run(S):
 
                 def stylist_new(m, a, ci):
                     return Opaque('stylist0', ())
-                m = S.machine(core, STD, ctx, overrides={'process_iterable_impl': process, 'print_doc': print_doc, 'ListStylist::<\'_>::new': stylist_new})
+                m = S.machine(core, STD, ctx, overrides={'process_iterable_impl': process, 'print_doc': print_doc, 'ListStylist::<\'_>::new': stylist_new, 'with_fold_style': (lambda mm, a, ci: a[0])})
                 nodes = []
                 tags = []
                 for i, w in enumerate(combo):
@@ -130,7 +130,7 @@ def run(S):
                         def process2(m2, a, ci):
                             rec2['seq'] = drain(m2, get_iter(m2, a[2]))
                             return Opaque('stylist', ())
-                        m2 = S.machine(core, STD, ctx, overrides={'process_iterable_impl': process2, 'print_doc': print_doc, 'ListStylist::<\'_>::new': stylist_new})
+                        m2 = S.machine(core, STD, ctx, overrides={'process_iterable_impl': process2, 'print_doc': print_doc, 'ListStylist::<\'_>::new': stylist_new, 'with_fold_style': (lambda mm, a, ci: a[0])})
                         pr2 = m2.heap.alloc(m.load(pr))
                         try:
                             m2.call_fn(fn, [pr2, pp.context(), Vec([nodes[j] for j in perm])] + extra)
@@ -345,7 +345,7 @@ def explore_gate(S):
                 rec['seq'] = drain(m, get_iter(m, a[2]))
                 return Opaque('stylist', ())
             m = S.machine(core, STD, ctx, overrides={'process_iterable_impl': process, 'print_doc': (lambda mm, a, ci: D.opaque_doc('items')),
-                                                      "ListStylist::<'_>::new": (lambda mm, a, ci: Opaque('stylist0', ())),
+                                                      "ListStylist::<'_>::new": (lambda mm, a, ci: Opaque('stylist0', ())), 'with_fold_style': (lambda mm, a, ci: a[0]),
                                                       'convert_expr': (lambda mm, a, ci: D.opaque_doc('source'))})
             cm = Node(kt.k('LineComment'), text=Str.lit('//c')) if line else Node(kt.k('BlockComment'), text=Str.lit('/*c*/'))
             after = sp('\n') if line else sp()
@@ -504,7 +504,7 @@ def explore_spacing(S, K):
                         rec['seq'] = drain(m, get_iter(m, a[2]))
                         return Opaque('stylist', ())
                     m = S.machine(core, STD, ctx, overrides={'process_iterable_impl': process, 'print_doc': (lambda mm, a, ci: D.opaque_doc('x')),
-                                                              "ListStylist::<'_>::new": (lambda mm, a, ci: Opaque('stylist0', ()))})
+                                                              "ListStylist::<'_>::new": (lambda mm, a, ci: Opaque('stylist0', ())), 'with_fold_style': (lambda mm, a, ci: a[0])})
                     nodes = [build(chars[i], shapes[i], wides[i] and first_pass, longs[i], blanks[i]) for i in range(len(shapes))]
                     pr, cfg = pp.printer(m, cfg=Agg('Config', None, (2, 80, 2, True), pp.CFG_NAMES))
                     m.call_fn(fn, [pr, pp.context(), Vec(nodes)] + ([True] if len(fn.params) >= 4 else []))
